@@ -120,10 +120,14 @@ pub(super) fn resolve_imports(
                             continue;
                         }
                     };
-                    path.make_absolute(
+                    let outcome = path.make_absolute(
                         &raw_import.created_at.package_name,
                         &raw_import.relative_to,
                     );
+                    if let Err(e) = outcome {
+                        too_many_supers(e, raw_import, diagnostics);
+                        continue;
+                    }
                     // The name of the package, as it appears from the perspective of the code that imported it.
                     let imported_package_name = path.0.first().expect("Module path can't be empty");
                     let package_id = match dependency_name2package_id(
@@ -190,7 +194,13 @@ struct RawModulePath(Vec<String>);
 impl RawModulePath {
     /// Replace any relative path components (e.g. `super`, `self`, `crate`) with
     /// their absolute counterparts.
-    fn make_absolute(&mut self, package_name: &str, relative_to: &str) {
+    ///
+    /// It fails if the path has more leading `super`s than `relative_to` has parent modules.
+    fn make_absolute(
+        &mut self,
+        package_name: &str,
+        relative_to: &str,
+    ) -> Result<(), TooManySupers> {
         let first = self
             .0
             .first()
@@ -213,7 +223,6 @@ impl RawModulePath {
                 // We make the path absolute by replacing `super` with the relevant
                 // parts of the module path.
                 let n_super = self.0.iter().filter(|s| s.as_str() == "super").count();
-                let old_segments = std::mem::take(&mut self.0);
                 // The path is relative to the current module.
                 // We "rebase" it to get an absolute path.
                 let module_segments: Vec<_> = relative_to
@@ -221,6 +230,14 @@ impl RawModulePath {
                     .map(|s| s.trim().to_owned())
                     .collect();
                 let n_module_segments = module_segments.len();
+                // The first segment is the crate name: the root module has no parent.
+                if n_super >= n_module_segments {
+                    return Err(TooManySupers {
+                        path: self.0.join("::"),
+                        module_path: relative_to.to_owned(),
+                    });
+                }
+                let old_segments = std::mem::take(&mut self.0);
                 let new_segments: Vec<_> = module_segments
                     .into_iter()
                     .take(n_module_segments - n_super)
@@ -230,7 +247,20 @@ impl RawModulePath {
             }
             _ => {}
         }
+        Ok(())
     }
+}
+
+/// A relative module path tried to reach above the root module of its crate.
+#[derive(Debug, thiserror::Error)]
+#[error(
+    "`{path}` is not a valid import path: there are too many leading `super` keywords.\n\
+    It is relative to `{module_path}`, which doesn't have that many parent modules."
+)]
+struct TooManySupers {
+    path: String,
+    /// The path of the module the relative path was written in.
+    module_path: String,
 }
 
 impl syn::parse::Parse for RawModulePath {
@@ -329,6 +359,26 @@ fn unknown_dependency_crate(
             .into(),
     )
     .build();
+    diagnostics.push(diagnostic);
+}
+
+fn too_many_supers(e: TooManySupers, import: &UnresolvedImport, diagnostics: &DiagnosticSink) {
+    let source = diagnostics.source(&import.registered_at).map(|s| {
+        let msg = match import.kind {
+            ImportKind::OrderIndependentComponents => "The import was registered here",
+            ImportKind::Routes { .. } => "The routes were imported here",
+        };
+        diagnostic::imported_sources_span(s.source(), &import.registered_at)
+            .labeled(msg.into())
+            .attach(s)
+    });
+    let diagnostic = CompilerDiagnostic::builder(e)
+        .optional_source(source)
+        .help(
+            "Use a path that starts with `crate` to import from a module of the current crate."
+                .into(),
+        )
+        .build();
     diagnostics.push(diagnostic);
 }
 
